@@ -106,6 +106,83 @@ pub mod std_net {
     pub struct Ipv4Addr { pub x: u8 }
     impl Ipv4Addr { pub const UNSPECIFIED: Ipv4Addr = Ipv4Addr { x: 0 }; }
 }
+// R27: the text of error messages is not specified by any property
+#[verifier::external_body]
+pub fn format_opaque() -> (r: String) { unimplemented!() }
+// ---- TLS accept path (tokio-rustls / rustls / rx509): opaque environment with a ghost view of what the peer presented ----
+pub mod tokio_rustls {
+    use vstd::prelude::*;
+    use std::sync::Arc;
+    pub struct TcpStream { pub x: u8 }
+    pub struct CertificateDer { pub x: u8 }
+    pub struct ServerConnection { pub ghost presented: Option<Seq<CertificateDer>> }
+    impl ServerConnection {
+        // the certificates the peer sent, its own (end-entity) certificate first (rustls documentation)
+        #[verifier::external_body]
+        pub fn peer_certificates(&self) -> (r: Option<&[CertificateDer]>)
+            ensures (r is Some) == (self.presented is Some), r matches Some(s) ==> s@ == self.presented->Some_0 { unimplemented!() }
+    }
+    pub mod server {
+        use vstd::prelude::*;
+        pub struct TlsStream { pub io: super::TcpStream, pub conn: super::ServerConnection }
+        impl TlsStream {
+            #[verifier::external_body]
+            pub fn get_ref(&self) -> (r: (&super::TcpStream, &super::ServerConnection)) ensures *r.1 == self.conn { unimplemented!() }
+        }
+    }
+    pub struct TlsStream { pub ghost conn: ServerConnection }
+    impl From<server::TlsStream> for TlsStream {
+        #[verifier::external_body]
+        fn from(s: server::TlsStream) -> (r: Self) ensures r.conn == s.conn { unimplemented!() }
+    }
+    impl vstd::std_specs::convert::FromSpecImpl<server::TlsStream> for TlsStream {
+        open spec fn obeys_from_spec() -> bool { false }
+        open spec fn from_spec(s: server::TlsStream) -> Self { TlsStream { conn: s.conn } }
+    }
+    pub struct TlsAcceptor { pub ghost cfg: crate::tls_env::Enforced }
+    impl From<Arc<crate::rustls::ServerConfig>> for TlsAcceptor {
+        #[verifier::external_body]
+        fn from(c: Arc<crate::rustls::ServerConfig>) -> (r: Self) ensures r.cfg == (*c).e { unimplemented!() }
+    }
+    impl vstd::std_specs::convert::FromSpecImpl<Arc<crate::rustls::ServerConfig>> for TlsAcceptor {
+        open spec fn obeys_from_spec() -> bool { false }
+        open spec fn from_spec(c: Arc<crate::rustls::ServerConfig>) -> Self { TlsAcceptor { cfg: (*c).e } }
+    }
+    impl TlsAcceptor {
+        // the handshake: Ok only when the peer was validated under the acceptor's configuration (rustls, not decided here)
+        #[verifier::external_body]
+        pub async fn accept(&self, socket: TcpStream) -> (r: Result<server::TlsStream, std::io::Error>) { unimplemented!() }
+    }
+}
+//@trusted tokio_rustls::{TlsAcceptor, server::TlsStream, ServerConnection::peer_certificates}: opaque; peer_certificates() lists what the peer sent with its own certificate first (rustls documentation)
+pub mod rx509 { pub mod x509 {
+    use vstd::prelude::*;
+    pub struct ASNError { pub x: u8 }
+    pub struct Certificate { pub x: u8 }
+    pub uninterp spec fn spec_parse(der: crate::tokio_rustls::CertificateDer) -> Option<Certificate>;
+    impl Certificate {
+        #[verifier::external_body]
+        pub fn parse(der: &crate::tokio_rustls::CertificateDer) -> (r: Result<Certificate, ASNError>)
+            ensures r matches Ok(c) ==> spec_parse(*der) == Some(c), r is Err ==> spec_parse(*der) is None { unimplemented!() }
+    }
+}}
+//@trusted rx509::x509::Certificate::parse: opaque DER parser (`spec_parse`, uninterpreted)
+pub mod common { pub mod phys {
+    use vstd::prelude::*;
+    pub struct PhysLayer { pub ghost tls: Option<crate::tokio_rustls::ServerConnection> }
+    impl PhysLayer {
+        #[verifier::external_body]
+        pub fn new_tls(s: crate::tokio_rustls::TlsStream) -> (r: Self) ensures r.tls == Some(s.conn) { unimplemented!() }
+    }
+}}
+pub mod server {
+    pub trait AuthorizationHandler {}
+    pub mod task {
+        use std::sync::Arc;
+        use crate::server::AuthorizationHandler;
+//@item rodbus/src/server/task.rs | AuthorizationType
+    }
+}
 pub mod tcp { pub mod tls {
     use vstd::prelude::*;
 //@item rodbus/src/tcp/tls/mod.rs | MinTlsVersion
@@ -129,7 +206,32 @@ pub mod tcp { pub mod tls {
         use crate::tls_env::*;
         use crate::tcp::tls::{CertificateMode, MinTlsVersion, TlsError};
 //@item rodbus/src/tcp/tls/server.rs | TlsServerConfig | derive=
+        use crate::tokio_rustls;
+        use crate::tokio_rustls::TcpStream;
+        use crate::rx509;
+        use crate::common::phys::PhysLayer;
+        use crate::server::task::AuthorizationType;
+        use crate::server::AuthorizationHandler;
+        // the role of a certificate: its single Modbus role extension (None when there is none or more than one)
+        pub uninterp spec fn spec_role(cert: rx509::x509::Certificate) -> Option<Seq<char>>;
+//@fn rodbus/src/tcp/tls/server.rs | extract_modbus_role | tags=C09 | ext_body
+//@|    ensures r matches Ok(role) ==> spec_role(*cert) == Some(role@), r is Err ==> spec_role(*cert) is None,
+//@trusted extract_modbus_role: assumed contract (rx509 extension parsing with iterator adapters): Ok(role) exactly when the certificate carries a single Modbus role extension
         impl TlsServerConfig {
+// [C09] no Modbus layer exists before the handshake succeeded; in authorization mode the session's role is the role extension of the
+// client's OWN certificate (the first one it presented), and a client whose certificate parses to no role is refused
+//@fn rodbus/src/tcp/tls/server.rs | TlsServerConfig::handle_connection | tags=C08,C09 | r10 r10id=0,1,2 r27
+//@|    ensures
+//@|        (auth_handler is None && r is Ok) ==> r->Ok_0.1 is None,
+//@|        (auth_handler is Some && r is Ok) ==> ({
+//@|            let a = r->Ok_0.1; let l = r->Ok_0.0;
+//@|            a is Handler && a->Handler_0 == auth_handler->Some_0
+//@|            && l.tls is Some && l.tls->Some_0.presented is Some && l.tls->Some_0.presented->Some_0.len() > 0
+//@|            && rx509::x509::spec_parse(l.tls->Some_0.presented->Some_0[0]) is Some
+//@|            && spec_role(rx509::x509::spec_parse(l.tls->Some_0.presented->Some_0[0])->Some_0) == Some(a->Handler_1@) }),
+//@closure 0|  |x: &[tokio_rustls::CertificateDer]| -> (o: Option<&tokio_rustls::CertificateDer>) ensures o == (if x@.len() > 0 { Some(&x@[0]) } else { None::<&tokio_rustls::CertificateDer> })
+//@closure 1|  || -> (e: String)
+//@closure 2|  |err: rx509::x509::ASNError| -> (e: String)
 // [C09] certificate mode -> verifier construction, minimum version -> enabled versions; paths and password forwarded unchanged
 //@fn rodbus/src/tcp/tls/server.rs | TlsServerConfig::new | tags=C09 | r10
 //@|    ensures r matches Ok(c) ==> (*c.inner).e == (Enforced {
